@@ -1189,7 +1189,7 @@ def gen_C13(rng, tier):
         r = h.newb(); h.ops.append("%s=nats@1 %s" % (r, "/".join("%d:%d:%d" % (i, rng.randrange(5), rng.randrange(100)) for i in range(3)))); qs.append(r)
         # every constructor of the quotient ring reduces: signed coefficients and high exponents too (a surviving mutant of the
         # third mechanical sweep: PolynomialFromSigned without the reduction)
-        r = h.newb(); h.ops.append("%s=ints@1 %s" % (r, "/".join("%d:%d:%d" % (rng.randrange(6), rng.randrange(2, 7), rng.choice([-3, -1, 1, 2, 50])) for i in range(3)))); qs.append(r)
+        r = h.newb(); h.ops.append("%s=ints@1 %s" % (r, "/".join("%d:%d:%d" % (2 * i + rng.randrange(2), rng.randrange(2, 7), rng.choice([-3, -1, 1, 2, 50])) for i in range(3)))); qs.append(r)
         h.ops.append("obs %s" % r)
         for _ in range(rng.randrange(3, 14)):
             a, b = rng.choice(qs), rng.choice(qs)
